@@ -53,7 +53,7 @@ def ljs(v):
     raise SystemExit("translator-failed: cannot render %r" % (v,))
 
 
-def grid_ops():
+def grid_ops(tabs):
     """fixed grids of pure operations, per property: {pid: [(op, args)]}"""
     import itertools
     g = {}
@@ -145,6 +145,10 @@ def grid_ops():
         rows.append(("b64.dec", {"j": j, "ol": 3}))
         rows.append(("b64.dec", {"j": j, "ol": 2}))
     g["C08"] = rows
+    # C17: configuration-context histories of length <= 2 after two contexts were created
+    from props import c17
+    al = c17.alphabet(tabs["cfg_err_base"], 2)
+    g["C17"] = [("cfg.hist", {"ops": [["new"], ["new"]] + [list(x) for x in h]}) for n in range(0, 3) for h in itertools.product(al, repeat=n)]
     # C19: `jose fmt` programs: every option (with arguments from the small alphabet of the check) after each stack
     # prefix, and every pair of options after two of them; printed with -o- at the end
     from props import c19
@@ -167,9 +171,9 @@ def grid_ops():
     return g
 
 
-def generate_grid(info):
+def generate_grid(info, t):
     """{path: text} — one generated module per property: Jose/Grid/<pid>.lean"""
-    g = grid_ops()
+    g = grid_ops(t)
     out = {}
     for pid in sorted(g):
         L = ["/- GENERATED by tools/extract_tables.py: answers of /repo's current working tree (library objects just built,",
@@ -431,7 +435,7 @@ def main():
     txt, t = generate(info)
     changed = False
     os.makedirs(os.path.join(VERIF, "lean", "Jose", "Grid"), exist_ok=True)
-    for path, text in [(OUT, txt), (OUT_SUG, generate_sug(t))] + sorted(generate_grid(info).items()):
+    for path, text in [(OUT, txt), (OUT_SUG, generate_sug(t))] + sorted(generate_grid(info, t).items()):
         old = open(path).read() if os.path.exists(path) else None
         if old != text:
             with open(path + ".tmp", "w") as f:
